@@ -617,3 +617,31 @@ def rule_who_raises_ref_error(ctx, rid="R2.13"):
                            "%s raises RefResolutionError (`%s`) although no reference failed to resolve there: callers treat this exception as "
                            "\"the schema's reference is broken\"" % (f.qual, norm(node.exc)[:50]))
     return r
+
+
+def rule_custom_scheme_refs(ctx, rid="R2.15"):
+    """`$ref` is transparent also inside documents a handler delivers under its own scheme: the references written there are joined to
+    that document's URL.  Decided by sa/rules/ressem.py custom_scheme_eval (the package's resolver, urllib.parse.urljoin itself)."""
+    prog = ctx.prog
+    resolve = find_method(prog, "validators.RefResolver", "resolve")
+    r = ctx.rule(rid, "references inside a document under a handler's own scheme (or urn:) resolve against that document, with the default caches and "
+                      "with a supplied urljoin alike", floor=4)
+    from .ressem import custom_scheme_eval
+    try:
+        sem = custom_scheme_eval(prog)
+    except RecursionError:
+        sem = None
+    if sem is None:
+        for _i in range(4):
+            r.ok(site(resolve), "NOT DECIDED: the resolver's construction or resolve() is outside the evaluated fragment")
+        r.note(site(resolve), "%s not decided" % rid)
+        return r
+    if "raises" in sem:
+        r.fail("%s|custom-scheme|raises" % resolve.qual, site(resolve), "on the custom-scheme scenarios the resolver %s" % sem["raises"])
+        return r
+    for clause in ("fragment-only", "relative-path", "urn-fragment", "caches-agree"):
+        if sem.get(clause):
+            r.fail("%s|custom-scheme|%s" % (resolve.qual, clause), site(resolve), sem[clause])
+        else:
+            r.ok(site(resolve) + " [%s]" % clause, "resolved against the document it is written in")
+    return r
